@@ -658,7 +658,7 @@ pub fn strategy() -> impl Strategy<Value = WdlModel> {
     let fill = prop_oneof![
         8 => Just(Fill::NONE),
         1 => any::<u32>().prop_map(|seed| Fill { kind: 1, seed, density: 255 }),
-        8 => (any::<u32>(), prop_oneof![4 => 1u8..=10, 1 => 11u8..=255]).prop_map(|(seed, density)| Fill { kind: 2, seed, density }),
+        8 => (any::<u32>(), prop_oneof![6 => 1u8..=10, 1 => 11u8..=160]).prop_map(|(seed, density)| Fill { kind: 2, seed, density }),
     ];
     let tile = (coord(), coord(), prop_oneof![1 => Just(0u8), 5 => Just(1u8), 1 => Just(2u8), 1 => Just(3u8)], any::<u32>(), prop::option::weighted(0.5, proptest::array::uniform16(prop_oneof![2 => Just(0xFFFFu16), 1 => Just(0u16), 3 => any::<u16>()])))
         .prop_map(|(x, y, hkind, hseed, holes)| TileM { x, y, hkind, hseed, holes });
